@@ -86,6 +86,18 @@ func (st *Stepper) Step() (fired bool, err error) {
 	return false, nil
 }
 
+// ReportsStable re-serialises every report produced so far and compares it with its serialisation at the moment it was
+// produced; it returns the index of the first report that a later stage altered.
+func (st *Stepper) ReportsStable() (int, bool) {
+	for i, r := range st.Reports {
+		b, _ := json.Marshal(r)
+		if string(b) != string(st.RepJSON[i]) {
+			return i, false
+		}
+	}
+	return -1, true
+}
+
 // Evaluate runs the method on the current state.
 func (st *Stepper) Evaluate() (rk *model.AlternativesRanking, err error) {
 	defer func() {
@@ -121,7 +133,8 @@ type State struct {
 	Criteria      []StateCrit
 	Considered    []StateAlt
 	NotConsidered []StateAlt
-	Params        string // canonical dump of the method parameters
+	Params        string            // canonical dump of the method parameters
+	ParamLeaves   map[string]string // the method parameters flattened: path -> scalar
 }
 
 func StateOf(p *model.DecisionMakingParams) State {
@@ -147,6 +160,7 @@ func StateOf(p *model.DecisionMakingParams) State {
 	s.Considered = cp(p.ConsideredAlternatives)
 	s.NotConsidered = cp(p.NotConsideredAlternatives)
 	s.Params = Dump(p.MethodParameters)
+	s.ParamLeaves = Leaves(p.MethodParameters)
 	return s
 }
 
